@@ -143,4 +143,24 @@ theorem elementwise_commutes_expandDims (q : QSpec) (f : ℚ → ℚ) (h : q.sca
   rw [apply_elementwise q f h, apply_elementwise q f h]
   simp [op1C, Tensor.reshape, Tensor.map]
 
+/-! ### per-call quantities: the pool area of QGlobalAveragePooling2D, the global data-format switch -/
+
+/-- the reciprocal pool area is a function of the shape of the tensor of THIS call -/
+theorem recipAreaC_last (x : Tensor) (b h w c : ℕ) (hs : x.shape = [b, h, w, c]) (hp : 0 < h * w) :
+    recipAreaC .channelsLast x = { Tensor.scalar (1 / ((h * w : ℕ) : ℚ)) with ok := x.ok } := by
+  have : h * w ≠ 0 := hp.ne'
+  simp [recipAreaC, areaHW, hs, this]
+
+theorem recipAreaC_first (x : Tensor) (b h w c : ℕ) (hs : x.shape = [b, c, h, w]) (hp : 0 < h * w) :
+    recipAreaC .channelsFirst x = { Tensor.scalar (1 / ((h * w : ℕ) : ℚ)) with ok := x.ok } := by
+  have : h * w ≠ 0 := hp.ne'
+  simp [recipAreaC, areaHW, hs, this]
+
+/-- on rank-2 tensors (everything a recurrent cell adds a bias to) `K.bias_add` is the same function
+    under both image data formats: axis 1 IS the last axis -/
+theorem biasAddC_rank2 (x bias : Tensor) (b n : ℕ) (hs : x.shape = [b, n]) :
+    biasAddC .channelsFirst x bias = biasAddC .channelsLast x bias := by
+  unfold biasAddC
+  simp [hs]
+
 end QKV.Layers
